@@ -645,10 +645,6 @@ def tie_explains(sc, a, b, run=None):
             if fx[1:3] != fy[1:3] or fx[-1] != fy[-1]:
                 return False
             rate = Fraction(str(sc["clients"][int(fx[2])]["commission"]))
-            px, py = _fracs(fx[3:-1]), _fracs(fy[3:-1])
-            if px is None or py is None:
-                return False
-            (pa, ca), (pb, cb) = px, py
             nt = 0
             if run is not None:
                 for o in run.orders:
@@ -656,9 +652,14 @@ def tie_explains(sc, a, b, run=None):
                         pre = profit_preimage(o)
                         if pre is not None and common.is_tie2(pre):
                             nt += 1
-            prof_ok = pa == pb or abs(pa - pb) <= Fraction(nt, 100)
-            com_ok = ca == cb or (abs(ca - cb) <= Fraction(1, 100) and (common.is_tie2(pa * rate) or common.is_tie2(pb * rate))) \
-                or (pa != pb and abs(ca - cb) <= Fraction(1, 100))
+            prof_ok = com_ok = False
+            for (pa, ca) in _fracs(fx[3:-1]):
+                for (pb, cb) in _fracs(fy[3:-1]):
+                    p_ok = pa == pb or abs(pa - pb) <= Fraction(nt, 100)
+                    c_ok = ca == cb or (abs(ca - cb) <= Fraction(1, 100) and (common.is_tie2(pa * rate) or common.is_tie2(pb * rate))) \
+                        or (pa != pb and abs(ca - cb) <= Fraction(1, 100))
+                    if p_ok and c_ok:
+                        prof_ok = com_ok = True
             if prof_ok and com_ok:
                 continue
             return False
@@ -680,17 +681,17 @@ def tie_explains(sc, a, b, run=None):
 
 
 def _fracs(parts):
-    """['12059','100','603','100'] or ['49','10','6','25'] or ['5','1','4'] -> two fractions (profit, commission);
-    integers appear as a single atom"""
-    # try all splits: profit uses 1 or 2 atoms, commission the rest (1 or 2 atoms)
+    """['12059','100','603','100'] or ['49','10','6','25'] or ['5','1','4'] -> candidate (profit, commission) pairs;
+    integers appear as a single atom, so the split is ambiguous: all readings are returned"""
+    out = []
     for k in (1, 2):
         a, b = parts[:k], parts[k:]
         if len(b) in (1, 2) and all(re.match(r"^-?\d+$", t) for t in a + b):
             try:
-                return Fraction("/".join(a)), Fraction("/".join(b))
+                out.append((Fraction("/".join(a)), Fraction("/".join(b))))
             except (ValueError, ZeroDivisionError):
                 continue
-    return None
+    return out
 
 
 def penny_close(a, b):
